@@ -156,7 +156,13 @@ def _witness(out):
 def _design(ctx, quick):
     out = {}
     cfg0 = "OpticalMC" if quick else "OpticalMC_thorough"
-    r = vlib.tlc("OpticalMC", cfg0, workers=2, timeout=1500, heap="6g", expect_ok=True)
+    variants = (("OpticalMC_nocompact", "CountsConserved"), ("OpticalMC_nobump", "CountsConserved"),
+                ("OpticalMC_ascoded", "NoEmptyScan"))
+    allr = vlib.tlc_parallel(
+        [dict(module="OpticalMC", cfg=cfg0, workers=2 if quick else 4, timeout=1500, heap="6g", expect_ok=True)]
+        + [dict(module="OpticalMC", cfg=cfg, workers=1, timeout=900, heap="4g", expect_ok=True) for cfg, _ in variants],
+        maxpar=4)
+    r, ms = allr[0], allr[1:]
     lem = re.search(r'<<"LEMMAS", "faults", (\d+), "bufs", (\d+)>>', r.out)
     if not lem:
         raise vlib.Broken("OpticalMC: the lemmas / clause vacuity guard did not evaluate:\n" + r.out[-3000:])
@@ -170,9 +176,7 @@ def _design(ctx, quick):
                             % (2 if quick else 3))
     out["clause_faults_attributed"] = int(lem.group(1))
     out["dist_index_buffers_enumerated"] = int(lem.group(2))
-    for cfg, inv in (("OpticalMC_nocompact", "CountsConserved"), ("OpticalMC_nobump", "CountsConserved"),
-                     ("OpticalMC_ascoded", "NoEmptyScan")):
-        m = vlib.tlc("OpticalMC", cfg, workers=1, timeout=900, heap="4g", expect_ok=True)
+    for (cfg, inv), m in zip(variants, ms):
         names = m.violated_names()
         if m.ok or inv not in names:
             raise vlib.Broken("vacuity guard: design variant %s was not refuted by %s (got %s)" % (cfg, inv, names))
@@ -221,10 +225,10 @@ def run(ctx):
                              "oracle_decided": ORACLE_DECIDED})
         return
 
-    nshards = 10 if q else 90
-    nsteps = 8000 if q else 10000
+    nshards = 16 if q else 90
+    nsteps = 5000 if q else 10000
     maxphot = 6
-    budget_s = 80 if q else 8 * 60
+    budget_s = 55 if q else 8 * 60      # no new shard is launched after this wall time
     maxpar = 4
     t_start = time.time()
 
